@@ -65,6 +65,7 @@ func laws(sel int, in, got []int64, law func(lsel int, lin []int64, sig string))
 			law(112, w.T, "")
 			law(113, w.T, "")
 			law(114, w.T, "")
+			law(115, w.T, "")
 		}
 	case 2:
 		r := &jobctl.R{T: in}
@@ -344,6 +345,86 @@ func genHistory(r *vh.Rng, stream string) (jobctl.History, bool) {
 	return h, reqs >= 3 && total >= 1
 }
 
+func genRunningBoundary(r *vh.Rng) jobctl.History {
+	var s jobctl.Spec
+	nt := r.Range(2, 3)
+	var summin, total int64
+	for i := 0; i < nt; i++ {
+		t := jobctl.Task{Name: int64(i + 1), Replicas: int64(r.Range(1, 3)), Cpu: 100}
+		switch r.Intn(6) {
+		case 0:
+			// no minimum: counts with its replicas
+			summin += t.Replicas
+		case 1:
+			t.Min = i64p(t.Replicas)
+			summin += t.Replicas
+		default:
+			t.Min = i64p(int64(r.Range(0, int(t.Replicas)-1)) + int64(r.Intn(2)))
+			if *t.Min > t.Replicas {
+				t.Min = i64p(t.Replicas)
+			}
+			summin += *t.Min
+		}
+		total += t.Replicas
+		s.Tasks = append(s.Tasks, t)
+	}
+	s.Min = summin + int64(vh.Pick(r, []int{-1, 0, 0, 0, 1}))
+	if s.Min < 0 {
+		s.Min = 0
+	}
+	if s.Min > total {
+		s.Min = total
+	}
+	s.MaxRetry = 3
+	h := jobctl.History{Spec: s}
+	st := jobctl.Status{Phase: 4, Min: s.Min, TscNil: r.Chance(1, 4)}
+	var succ int64
+	for _, t := range s.Tasks {
+		// succeeded pods of the task: its minimum - 1, its minimum, or all
+		m := t.Replicas
+		if t.Min != nil {
+			m = *t.Min
+		}
+		k := int64(vh.Pick(r, []int{int(m) - 1, int(m), int(m), int(t.Replicas)}))
+		if k < 0 {
+			k = 0
+		}
+		if k > t.Replicas {
+			k = t.Replicas
+		}
+		var tc jobctl.TaskCount
+		tc.Task = t.Name
+		for i := int64(0); i < t.Replicas; i++ {
+			ph := int64(3) // Failed
+			if i < k {
+				ph = 2 // Succeeded
+				succ++
+			}
+			if r.Chance(1, 25) {
+				ph = 1 // one pod still running: the job must stay Running (or go Pending)
+			}
+			h.Pods = append(h.Pods, jobctl.Pod{Task: t.Name, Idx: i, Phase: ph})
+		}
+	}
+	switch r.Intn(4) {
+	case 0:
+		s.MinSucc = i64p(succ) // just reached
+	case 1:
+		s.MinSucc = i64p(succ + 1) // just missed
+	}
+	h.Spec = s
+	// the status still shows the pods running: the next sync recounts them and decides
+	for _, p := range h.Pods {
+		_ = p
+		st.C[1]++
+	}
+	h.Status = st
+	h.Pg = i64p(3)
+	h.Ops = []jobctl.Op{{Code: 1, Req: jobctl.Req{Event: 8, UidMatch: 1}}, {Code: 7}, {Code: 8},
+		{Code: 1, Req: jobctl.Req{Event: 8, UidMatch: 1}}}
+	return h
+}
+
 func descHistory(h jobctl.History) any {
 	return map[string]any{"tasks": len(h.Spec.Tasks), "minAvailable": h.Spec.Min, "maxRetry": h.Spec.MaxRetry,
 		"initial_phase": h.Status.Phase, "initial_pods": len(h.Pods), "ops": len(h.Ops)}
@@ -358,6 +439,16 @@ func gen(rng *vh.Rng, n int, emit func(id string, sel int, in []int64, kind stri
 		w := &jobctl.W{}
 		w.History(h)
 		emit(fmt.Sprintf("hist-%s-%d", stream, i), 1, w.T, "history/"+stream, nt, descHistory(h))
+	}
+	// the decision of a Running job whose pods have (almost) all finished, around its boundaries:
+	// job.minAvailable <, =, > the sum of the task minimums; a task's succeeded pods = its
+	// minimum - 1, = its minimum, all of them; minSuccess unset / just reached / just missed
+	for i := 0; i < n/2+1; i++ {
+		r := rng.Fork()
+		h := genRunningBoundary(r)
+		w := &jobctl.W{}
+		w.History(h)
+		emit(fmt.Sprintf("hist-runbound-%d", i), 1, w.T, "history/running-boundary", true, descHistory(h))
 	}
 	// applyPolicies directly
 	for i := 0; i < 2*n; i++ {
